@@ -39,6 +39,11 @@ CHECKS = {
     technique='exhaustive enumeration of Locate requests (ordered filter conjunctions x paging x requesters x versions) over store families built by real operations, against a reference matcher on an independent raw-SQLite snapshot',
     text='Four store families (mixed types/owners/policies/states with ties and gaps in initial dates; the same without certificates/opaque objects; a store of keys in every lifecycle state; empty) are built through the real session+engine. Every ordered conjunction of 0, 1 and 2 filters from a 39-entry menu over exactly the attributes the statement lists (matching some / matching none / inapplicable values; repeated and reversed date filters), triples containing a date range in every position (more triples in thorough), is sent by three requesters (incl. a group identity) under KMIP 1.2 and 2.0. The result must equal the set computed by the reference matcher and reference access decision on a snapshot read directly from SQLite, be ordered newest first, and for conjunctions of <= 1 filter every one of 35 (offset, maximum) pairs must return exactly that slice of the unpaged list and pages of size 1 and 2 must partition it.',
     note='Ties in initial date may come in any order (paging is compared with the unpaged answer of the same store). The Operation Policy Name filter is not sent under KMIP 2.0 because the codec refuses it. Stores are fixed families, not all stores.'),
+ 'C15': dict(
+    category='model_checking', design_ref='DESIGN.md 4/C15',
+    technique='explicit-state BFS (dedup on the full attribute snapshot of the whole store) over Set/Modify/DeleteAttribute sequences on the real engine, judged by an attribute-store model on a raw-SQLite snapshot, a whole-store frame condition and GetAttributes agreement',
+    text='245 symbolic actions - Set/Modify/DeleteAttribute in the 1.x index form (index absent, 0, 1, last+1, -1) and the 2.0 current/new/reference form, values new / equal to current / duplicate of a sibling, for Name, Object Group, Application Specific Information and Sensitive, one form each for every other attribute name in the rule table and a custom name, by owner and non-owner - are applied in every state reached within depth 2 (quick) / 3 (thorough) from a store holding the target and a bystander with identical attribute values (all 7 object kinds as target; other kinds depth 1 / 2). In every state the nine never-alterable attributes and owners are unchanged; a successful call must address an existing, alterable instance and leave exactly the model\'s result on the target, nothing else changed on any object, and GetAttributes must agree; a failed call must leave the raw database identical.',
+    note='Values the library cannot construct or refuses to encode for the version are skipped and counted. Index -1 and out-of-range indices are taken to address no instance. Canonical state = full attribute snapshot (no abstraction).'),
 }
 
 NOT_YET = {}
